@@ -37,6 +37,11 @@ Record log_ok (U : list entry) (l : log) : Prop := {
   ok_clock   : forall e, In e (lents l) -> etime e <= lclock l
 }.
 
+(** [m] is closed under [next] (inside the universe every link target exists, so this
+    says: the ancestry of every member is in [m]) *)
+Definition next_closed (m : list entry) : Prop :=
+  forall e c, In e m -> In c (enext e) -> In c (hashes m).
+
 (** * The global system: replicas over a growing universe (C01's quantifier) *)
 
 (** One replica: its log and the two materialised views (Go maps that are never reset). *)
